@@ -183,6 +183,12 @@ def literal_texts(run):
             add("astral", '"\\N{%s}"' % n)
     for t in c03.escapes():
         add("escape-shape", t)
+    for head, _ in ESC_HEADS:
+        for tail, _ in ESC_TAILS:
+            add("escape-combo", "'" + head + tail + "'")
+            add("escape-combo", '"x' + head + tail + '"')
+    for t, _ in ESC_LITERAL:
+        add("escape-combo", t)
     # integers
     for k in [1, 2, 3, 5, 10, 19, 20, 39, 100, 1000, 4000, 4299, 4300, 4301, 5000]:
         for _ in range(run.n(4, 30)):
@@ -217,6 +223,20 @@ def literal_texts(run):
             res.append((k, t))
     return res
 
+
+# escape sequences (text, value) and what may follow them (text, value)
+ESC_HEADS = [("\\u0041", "A"), ("\\u00e9", "é"), ("\\x41", "A"), ("\\U0001f600", "\U0001f600"), ("\\101", "A"), ("\\n", "\n"),
+             ("\\N{BULLET}", "•"), ("\\uD7FF", "퟿")]
+ESC_TAILS = [("é", "é"), ("aé", "aé"), ("abcé", "abcé"), ("\\u0042", "B"), ("a\\u0042", "aB"), ("ab\\101", "abA"),
+             ("abc\\n", "abc\n"), ("\\x42", "B"), ("ü\\t", "ü\t"), ("\\\\", "\\"), ("abcd\\u0042", "abcdB"), ("", ""),
+             ("\\N{BULLET}", "•"), ("a\\7", "a\x07"), ("ж", "ж"), ("\U0001f600", "\U0001f600")]
+ESC_TAIL_NAMES = ["a raw non-ASCII character", "a raw non-ASCII character", "a raw non-ASCII character", "another escape",
+                  "another escape", "another escape", "another escape", "another escape", "a raw non-ASCII character",
+                  "another escape", "another escape", "nothing", "another escape", "another escape",
+                  "a raw non-ASCII character", "a raw astral character"]
+ESC_LITERAL = [("'\\U0041'", "\\U0041"), ("'\\U0041 zz'", "\\U0041 zz"), ("'\\u41'", "\\u41"), ("'\\x4'", "\\x4"),
+               ("'\\X41'", "\\X41"), ("'\\A'", "\\A"), ("'\\T'", "\\T"), ('"\\n{BULLET}"', "\n{BULLET}"), ("'\\N{}'", "\\N{}"),
+               ("'\\8'", "\\8"), ("'\\N'", "\\N")]
 
 BIASED = ["\\", "\\", "'", '"', "`", "\n", "\\n", "\\x41", "\\u", "\\N{", "}", "a", "z", " ", "\t", "0", "7", "\x00",
           "\ud800", "é", "\U0001f600", "\\\\", "\\`", "\\'", "$", "(", "\r"]
@@ -387,6 +407,13 @@ def oracle(run, deep):
     for letter, cp in zip("\\'\"abfnrtv", [92, 39, 34, 7, 8, 12, 10, 13, 9, 11]):
         for q in "'\"":
             expect("single-character escapes", q + "x\\" + letter + "y" + q, "x" + chr(cp) + "y")
+    # an escape followed closely by raw non-ASCII characters or by another escape: each decodes on its own
+    for i, (head, hv) in enumerate(ESC_HEADS):
+        for j, (tail, tv) in enumerate(ESC_TAILS):
+            q = "'" if (i + j) % 2 else '"'
+            expect("an escape followed by %s" % ESC_TAIL_NAMES[j], q + head + tail + q, hv + tv)
+    for text, value in ESC_LITERAL:
+        expect("an incomplete escape stays as written", text, value)
     # integers and floats denote the Python numbers
     for _ in range(run.n(300, 5000)):
         k = rng.choice([1, 2, 5, 18, 19, 20, 100, 1000, 4000, 4300])
@@ -420,6 +447,82 @@ def oracle(run, deep):
                      {"input": lc.compress(w), "input_repr": w, "observed": [str(x) for x in o], "required": [str(x) for x in want],
                       "theorems": ["C16_keywords"]})
     run.note("oracle: %d values round-tripped in three quote styles" % nchecked)
+    multi_engine_oracle(run, deep)
+
+
+# ---------------------------------------------------------------- several engines in one process
+def run_scenario(scn, timeout=120):
+    """Execute a multi-engine scenario in a FRESH process (so that the order of first use is exactly the scenario's)."""
+    import subprocess
+    import sys
+    script = os.path.join(HERE, "harness", "multiengine.py")
+    p = subprocess.run([sys.executable, "-W", "ignore", script], input=json.dumps(scn), capture_output=True, text=True,
+                       timeout=timeout)
+    if p.returncode != 0:
+        return [{"engine": "?", "text": "?", "expected": "the scenario runs", "observed": ["harness process failed", p.stderr[-400:]],
+                 "engines_used_before": []}]
+    return json.loads(p.stdout)
+
+
+def multi_engine_oracle(run, deep):
+    """What a word denotes depends only on the engine that reads it: default, legacy, factories with inserted word
+    operators (binary, right-associative binary, prefix, suffix), with operators removed, without the keyword operator -
+    all in one process, every engine being the first to be used once (and the reverse orders)."""
+    import concurrent.futures
+    import multiengine as me
+    rng = run.rng
+    specs = me.ENGINES
+    n = len(specs)
+    extra = ["".join(rng.choice("abcdxyz_ABé019") for _ in range(rng.randrange(2, 8))) for _ in range(run.n(6, 40))]
+    extra = [w for w in extra if not w[0].isdigit() and not w.startswith("__")]
+    words = me.pool(specs, extra)
+    orders = [[(i + k) % n for k in range(n)] for i in range(n)]
+    orders += [list(reversed(o)) for o in orders[:run.n(2, n)]]
+    for _ in range(run.n(0, 24) + (8 if deep else 0)):
+        o = list(range(n))
+        rng.shuffle(o)
+        orders.append(o)
+    scns = [{"engines": specs, "order": o, "words": words} for o in orders]
+    with concurrent.futures.ThreadPoolExecutor(max_workers=8) as ex:
+        results = list(ex.map(run_scenario, scns))
+    reported = False
+    for scn, fails in zip(scns, results):
+        run.case(("engines", tuple(scn["order"])), nontrivial=True)
+        run.count("oracle:engines:" + ("ok" if not fails else "fail"))
+        run.count("oracle:engines:texts", sum(len(me.expectations(specs[i], words)) for i in scn["order"]))
+        if fails and not reported:
+            reported = True
+            small, f = shrink_scenario(scn, fails[0])
+            run.fail("violation",
+                     "what a word denotes for one engine depends on what another engine of the process read before",
+                     {"scenario": small, "failing_step": f,
+                      "how_to_read": "engines are created and used in `order` inside one fresh process; each reads the texts "
+                                     "multiengine.expectations() derives from its own operator table",
+                      "required": "true/false/null are the constants; a word that is not a keyword operator OF THE ENGINE "
+                                  "THAT READS IT denotes its own text; its own operators parse as operators; strings and "
+                                  "numbers are unaffected",
+                      "theorems": ["C16_keywords (the token type of a word is a function of the reading engine's own tables: "
+                                   "kw_action cfg w)"]})
+    run.note("oracle: %d multi-engine scenarios (%d engines, %d words each) in fresh processes" % (len(scns), n, len(words)))
+
+
+def shrink_scenario(scn, failure):
+    """Smallest scenario that still fails: [one earlier engine, the failing engine] reading only the failing word."""
+    import re
+    bad = failure.get("engine_index")
+    word_texts = [w for w in scn["words"] if re.search(r"(?<!\w)%s(?!\w)" % re.escape(w), failure["text"])]
+    for words in ([w] for w in word_texts):
+        for i in scn["order"]:
+            if i == bad:
+                break
+            cand = {"engines": scn["engines"], "order": [i, bad], "words": words}
+            try:
+                fails = run_scenario(cand)
+            except Exception:
+                continue
+            if fails:
+                return cand, fails[0]
+    return scn, failure
 
 
 def classify(failure, known_entries):
@@ -450,6 +553,8 @@ def replay(run, data):
     if not run.proof["ok"]:
         return False
     d = data["data"]
+    if "scenario" in d:
+        return not run_scenario(d["scenario"])
     if "value" in d:
         s = "".join(chr(c) for c in d["value"])
         bad = [b for b in roundtrip_failure(s) if b[0] != "verbatim" or vb_ok(s)]
